@@ -11,9 +11,19 @@ R.macro("in_no_table", ["n", "c"],
         "not (c.socket_fileno in n.socket_peers and n.socket_peers[c.socket_fileno] == c)")
 
 R.contract("Node.remove_peer_connection", params={"self": "Node", "conn": "PeerConnection", "disconnect_reason": "int"},
-           ghost={"kc2": "str", "gp": "Peer"},
+           ghost={"kc2": "str", "gp": "Peer", "fd2": "int"},
            ensures=[("a-peer-left-without-a-connection-has-a-disconnect-reason-if-it-had-one-or-had-a-connection", "implies(is_none(gp.connection) and (old(not is_none(gp.disconnect_reason)) or old(not is_none(gp.connection))), not is_none(gp.disconnect_reason))"),
                     ("gone-from-every-table", "in_no_table(self, conn)"),
+                    # whole-view clauses for the other three tables (round 6, seed C14-16: an entry deleted by descriptor
+                    # NUMBER although a later connection owns that number now)
+                    ("exactly-this-connections-entry-leaves-the-descriptor-table",
+                     "(fd2 in self.socket_peers) == (old(fd2 in self.socket_peers) and "
+                     "not (fd2 == conn.socket_fileno and old(self.socket_peers[fd2]) == conn)) and "
+                     "implies(fd2 in self.socket_peers, self.socket_peers[fd2] == old(self.socket_peers[fd2]))"),
+                    ("exactly-this-connections-socket-leaves-the-socket-table",
+                     "(kc2 in self.peer_sockets) == (old(kc2 in self.peer_sockets) and kc2 != conn.ident) and "
+                     "implies(kc2 in self.peer_sockets, self.peer_sockets[kc2] == old(self.peer_sockets[kc2]))"),
+
                     ("pending-answers-dropped", "not (conn.host_identity in self._peer_waiting_answer)"),
                     ("own-link-cleared-with-reason-and-time-or-taken-over",
                      "implies(not is_none(old(peer_of(self, conn))) and old(some(peer_of(self, conn)).connection) == conn, "
@@ -46,7 +56,7 @@ R.contract("Node.remove_peer_connection", params={"self": "Node", "conn": "PeerC
                      "dict:self._half_ready_connections", "dict:self._peer_waiting_answer",
                      "*Peer.connection", "*Peer.last_disconnect", "*Peer.disconnect_reason", "*Peer.last_connect", "*Event.flag",
                      "*list:Peer"],
-           props=["C13", "C12", "C19", "C09", "C07"])
+           props=["C13", "C12", "C19", "C09", "C07", "C14"])
 R.contracts["Node.remove_peer_connection"].ghost_bind = {"Node._assign_peer_connection": {"k": "conn.ident", "gp": ["some(peer)", "gp"]}}
 R.model("Event", fields={"g_owner": "Any"})
 
